@@ -386,10 +386,12 @@ pub fn parse_choice_text(input: &str) -> Result<ParsedChoiceText, CompilerError>
         });
     }
 
+    // The parts of `start[choice-only]end` are taken as they are written: the choice is
+    // offered as start + choice-only and printed as start + end.
     if let Some(index) = find_outside_braces(trimmed, "[]") {
         let (before, after) = (&trimmed[..index], &trimmed[index + 2..]);
-        let display = before.trim_end().to_owned();
-        let raw_suffix = after.trim_start();
+        let display = before.to_owned();
+        let raw_suffix = after;
         let had_space_before_inline_divert = split_inline_divert(raw_suffix)
             .and_then(|(text, _)| text.chars().last())
             .is_some_and(char::is_whitespace);
@@ -400,13 +402,7 @@ pub fn parse_choice_text(input: &str) -> Result<ParsedChoiceText, CompilerError>
             suffix.to_owned()
         };
         let (start_text, start_tags) = split_text_and_tags(&display)?;
-        let selected = if suffix.is_empty() {
-            Some(display.clone())
-        } else if suffix.starts_with(|c: char| c.is_ascii_punctuation() && c != '"' && c != '\'') {
-            Some(format!("{display}{suffix}"))
-        } else {
-            Some(format!("{display} {suffix}"))
-        };
+        let selected = Some(format!("{display}{suffix}"));
         let (selected_text, selected_tags) =
             split_text_and_tags(selected.as_deref().unwrap_or(""))?;
         return Ok(ParsedChoiceText {
@@ -429,8 +425,8 @@ pub fn parse_choice_text(input: &str) -> Result<ParsedChoiceText, CompilerError>
     {
         let close = open + 1 + close_rel;
         let start = &trimmed[..open];
-        let choice_only = trimmed[open + 1..close].trim();
-        let end = trimmed[close + 1..].trim_start();
+        let choice_only = &trimmed[open + 1..close];
+        let end = &trimmed[close + 1..];
         let had_space_before_inline_divert = split_inline_divert(end)
             .and_then(|(text, _)| text.chars().last())
             .is_some_and(char::is_whitespace);
@@ -471,17 +467,7 @@ pub fn parse_choice_text(input: &str) -> Result<ParsedChoiceText, CompilerError>
         };
         let choice_only_text = format!("{choice_only_text}{display_suffix}");
         let display = format!("{start_text}{choice_only_text}");
-        let selected_text = if end_text.is_empty() {
-            start_text.trim_end().to_owned()
-        } else if start_text.trim().is_empty() {
-            end_text
-        } else if end_text
-            .starts_with(|c: char| c.is_ascii_punctuation() && c != '"' && c != '\'' && c != '{')
-        {
-            format!("{}{}", start_text.trim_end(), end_text)
-        } else {
-            format!("{} {}", start_text.trim_end(), end_text)
-        };
+        let selected_text = format!("{start_text}{end_text}");
         let mut selected_tags = start_tags.clone();
         selected_tags.extend(end_tags);
         return Ok(ParsedChoiceText {
